@@ -222,7 +222,8 @@ theorem match_order_independent (as bs : List (List τ)) (h : as.Perm bs) (q : L
 
 theorem mem_prefixes_iff (t : TNode τ Bool) (S : List (List τ)) (hi : Inv t) (h : Rep t S)
     (p : List τ) : p ∈ t.prefixes ↔ IsMinimal S p := by
-  simp only [prefixes, List.mem_map]
+  rw [mem_prefixes]
+  simp only [List.mem_map]
   constructor
   · rintro ⟨⟨p', v⟩, hm, rfl⟩
     have := (mem_items t hi.1 p' v).1 hm
@@ -242,7 +243,7 @@ theorem iter_spec (as : List (List τ)) :
     (∀ p, p ∈ (adds as).prefixes ↔ (p ∈ as ∧ ∀ b ∈ as, b <+: p → b = p)) := by
   have hi := adds_inv as
   have hr := adds_rep as
-  have hnd : (adds as).prefixes.Nodup := nodup_items_keys _ hi.1
+  have hnd : (adds as).prefixes.Nodup := nodup_prefixes _ hi.1
   refine ⟨?_, hnd, fun p => mem_prefixes_iff _ _ hi hr p⟩
   rw [List.perm_ext_iff_of_nodup hnd (nodup_minimalKeys as)]
   intro p
@@ -252,8 +253,8 @@ theorem iter_spec (as : List (List τ)) :
 minimal adds (an add repeated several times counts once) -/
 theorem len_spec (as : List (List τ)) : (adds as).len = (minimalKeys as).length := by
   have hi := adds_inv as
-  rw [C10.len_spec _ hi.1, ← (iter_spec as).1.length_eq]
-  simp [prefixes]
+  rw [C10.len_spec _ hi.1, ← (iter_spec as).1.length_eq, (prefixes_perm _).length_eq]
+  simp
 
 /-- `len` and the set of stored keys do not depend on the order of the adds either -/
 theorem len_iter_order_independent (as bs : List (List τ)) (h : as.Perm bs) :
@@ -268,7 +269,8 @@ theorem len_iter_order_independent (as bs : List (List τ)) (h : as.Perm bs) :
   refine ⟨?_, hp⟩
   rw [C10.len_spec _ (adds_inv as).1, C10.len_spec _ (adds_inv bs).1]
   have := hp.length_eq
-  simpa [prefixes] using this
+  rw [(prefixes_perm _).length_eq, (prefixes_perm _).length_eq] at this
+  simpa using this
 
 /-- hostnames never tokenise to the empty key, so the root carries no value and `len` is the
 root counter (the value `TrieDict.__len__` returned before the empty key was counted) -/
@@ -476,7 +478,7 @@ example :
       matchTok (adds as) ["fr", "lemonde", "www", "x"] = true ∧
       matchTok (adds as) ["fr"] = false ∧ matchTok (adds as) ["fr", "lemondes"] = false ∧
       matchTok (adds (as.take 2)) ["fr", "lemonde"] = false ∧
-      (adds as).prefixes = [["fr", "lemonde"], ["net", "lacamargue"]] ∧
+      (adds as).prefixes = [["net", "lacamargue"], ["fr", "lemonde"]] ∧
       minimalKeys as = [["fr", "lemonde"], ["net", "lacamargue"]] := by
   decide
 
